@@ -182,10 +182,12 @@ func (e *FnEnc) encodeBody() {
 	}
 	// preconditions
 	env := e.entryEnv()
+	env.atEntry = true
 	for _, r := range e.c.Requires {
 		t := e.evalBool(r.E, env, r)
 		e.assert(t)
 	}
+	env.atEntry = false
 	e.flushFacts()
 	// type invariants of receiver/params assumed at entry: (handled via requires for now)
 
@@ -838,7 +840,9 @@ func (e *FnEnc) encodeInstr(in ssa.Instruction) {
 	case *ssa.Send:
 		e.note(e.key + ": channel send treated as a no-op")
 	case *ssa.MakeChan:
-		e.setVal(x, Val{L: []string{e.newRef("chan_" + x.Name())}})
+		r := e.newRef("chan_" + x.Name())
+		e.setVal(x, Val{L: []string{r}})
+		e.setHeap("C/closed", "(Array Int Bool)", "(store "+e.heapArr("C/closed", "(Array Int Bool)")+" "+r+" false)")
 	case *ssa.Select:
 		e.note(e.key + ": select: results unconstrained")
 		e.setVal(x, e.freshVal("select", x.Type()))
